@@ -119,6 +119,11 @@ def cmd_run(sid, props, tier='quick', seed='1'):
 def main():
     args = sys.argv[1:]
     tier = 'quick'
+    seed = '1'
+    if '--seed' in args:
+        k = args.index('--seed')
+        seed = args[k + 1]
+        del args[k:k + 2]
     if '--tier' in args:
         k = args.index('--tier')
         tier = args[k + 1]
@@ -128,13 +133,13 @@ def main():
     elif args[0] == 'confirm':
         cmd_confirm(args[1])
     elif args[0] == 'run':
-        cmd_run(args[1], args[2:], tier)
+        cmd_run(args[1], args[2:], tier, seed)
     elif args[0] == 'all':
         missed = []
         for sid in sorted(os.listdir(SEEDED)):
             if not os.path.exists(os.path.join(SEEDED, sid, 'meta.json')):
                 continue
-            res = cmd_run(sid, [], tier)
+            res = cmd_run(sid, [], tier, seed)
             if not any(v[0] for v in res.values()):
                 missed.append(sid)
         print('MISSED:', missed)
